@@ -112,6 +112,9 @@ def gen_cases(tier, seed):
     # a resource without fields (all of them deleted) still has rows - empty mappings - and is followed by others
     for i in range({'quick': 4, 'thorough': 24}[tier]):
         yield {'family': 'fieldless_resource', 'idx': 3 * 10 ** 6 + i, 'seed': seed}
+    # checkpoint(resources=...): the run that saves and the run that resumes return the same (selected) resources
+    for i in range({'quick': 6, 'thorough': 30}[tier]):
+        yield {'family': 'selected_resources', 'idx': 5 * 10 ** 6 + i, 'seed': seed}
 
 
 def run_no_resources(case):
@@ -289,6 +292,42 @@ def run_fieldless(case):
                 cov={'value_class': {}, 'history': {'fieldless_resource/%s' % position: 1}}, sample={'config': cfg})
 
 
+def run_selected(case):
+    rng = boot.rng(case['seed'], 'C07', 'selected', case['idx'])
+    d = lab.df()
+    counters = {'resumed_runs': 0, 'rows_compared': 0}
+    names = ['a', 'ab', 'abc'][:rng.choice([2, 3])]
+    selector = rng.choice(['ab', ['a'], 'a', 0, -1, 'ab?', ['ab', 'a'], None])
+    sizes = [rng.choice([0, 1, 5, 40]) for _ in names]
+    cfg = {'family': 'selected_resources', 'names': names, 'selector': selector, 'rows': sizes}
+    f2 = [{'name': 'a', 'type': 'integer'}, {'name': 'b', 'type': 'string'}]
+
+    def flow():
+        return [lab.source(n, f2, [{'a': j * 100 + i, 'b': 'x%d' % i} for i in range(sz)])
+                for j, (n, sz) in enumerate(zip(names, sizes))] + \
+               [d.checkpoint('cp', checkpoint_path='cpf', resources=copy.deepcopy(selector)), d.update_package(title='after')]
+    viol = []
+    first = lab.run(flow(), validate=True)
+    if not first.ok:
+        return dict(nontrivial=False, violations=[], counters=counters, cov={'value_class': {}, 'history': {}},
+                    inconclusive='first run failed: %s' % first.errstr())
+    for k in (2, 3):
+        nxt = lab.run(flow(), validate=True)
+        counters['resumed_runs'] += 1
+        if not nxt.ok:
+            viol.append({'kind': 'run_failed', 'mech': 'run_failed/selected_resources', 'config': cfg,
+                         'msg': '%r: run %d (resuming) failed: %s' % (cfg, k, nxt.errstr())})
+            break
+        counters['rows_compared'] += sum(len(r) for r in first.results)
+        if first.names != nxt.names or first.results != nxt.results or first.dp != nxt.dp:
+            viol.append({'kind': 'resumed_differs', 'mech': 'selected_resources/resumed_differs', 'config': cfg,
+                         'msg': '%r: run %d (resuming) returned resources %r with %r rows, the saving run %r with %r rows'
+                         % (cfg, k, nxt.names, [len(r) for r in nxt.results], first.names, [len(r) for r in first.results])})
+            break
+    return dict(nontrivial=True, violations=viol, counters=counters,
+                cov={'value_class': {}, 'history': {'selected_resources/%s' % type(selector).__name__: 1}}, sample={'config': cfg})
+
+
 def key_orders(v):
     """the key order of every dict nested in v (lists keep their positions)."""
     if isinstance(v, dict):
@@ -318,6 +357,8 @@ def run_case(case):
         return run_failed_first(case)
     if case['family'] == 'fieldless_resource':
         return run_fieldless(case)
+    if case['family'] == 'selected_resources':
+        return run_selected(case)
     if case['family'] == 'c_locale':
         return run_c_locale(case)
     rng = boot.rng(case['seed'], 'C07', case['idx'])
